@@ -94,7 +94,12 @@ static enum DeviceState
 raw_stop(struct Storage* self_)
 {
     struct Raw* self = containerof(self_, struct Raw, writer);
-    file_close(&self->file);
+    // stop is also reached from destroy and from a failed append: only close
+    // a file this writer has open, and only once
+    if (self->file.fid >= 0) {
+        file_close(&self->file);
+        self->file.fid = -1;
+    }
     return DeviceState_Armed;
 }
 
@@ -136,6 +141,7 @@ raw_init()
     struct Raw* self;
     CHECK(self = malloc(sizeof(*self)));
     memset(self, 0, sizeof(*self));
+    self->file.fid = -1; // no file is open yet (0 is a valid descriptor)
     const struct PixelScale pixel_scale_um = { 1, 1 };
 
     CHECK(storage_properties_init(&self->properties,
